@@ -638,6 +638,30 @@ def _model_to_py(m, inputs):
     return out
 
 
+_DUMP_COUNT = [0]
+
+
+def _maybe_dump(ctx, ob, r):
+    """development aid (tools/solver_diff.py): write every k-th discharged obligation as SMT-LIB2 so that other solvers
+    can be run on exactly the query z3 answered.  VERIF_SMT_DUMP=<dir>[:k]"""
+    import os
+
+    spec = os.environ.get("VERIF_SMT_DUMP")
+    if not spec:
+        return
+    d, _, k = spec.partition(":")
+    k = int(k or 50)
+    _DUMP_COUNT[0] += 1
+    if _DUMP_COUNT[0] % k:
+        return
+    s2 = z3.Solver()
+    s2.add(*ctx.solver.assertions())
+    s2.add(z3.Not(ob))
+    os.makedirs(d, exist_ok=True)
+    with open(os.path.join(d, f"q{os.getpid()}_{_DUMP_COUNT[0]}_{'unsat' if r == z3.unsat else 'sat'}.smt2"), "w") as f:
+        f.write(s2.to_smt2())
+
+
 def path_inputs(ctx) -> dict:
     """concrete values of all named inputs for one model of the current path condition"""
     if ctx.check() != z3.sat:
@@ -710,6 +734,7 @@ def explore(run, *, max_paths: int = 200_000, max_seconds: float = 3600.0, label
                 if ob is False:
                     ob = z3.BoolVal(False)
                 r = ctx.check(z3.Not(ob))
+                _maybe_dump(ctx, ob, r)
                 if r == z3.unsat:
                     res.discharged += 1
                 else:
